@@ -19,9 +19,28 @@ Theorem C18_effect_norm_effs_fired :
 Proof. exact norm_effs_fired. Qed.
 Print Assumptions C18_effect_norm_effs_fired.
 
-(* the syntactic round trip: stated, NOT proved in this round (validated by the correspondence: bit 2 of
-   Corr_C18_effect.ecode compares the REAL round trip with [norm_effs] on every generated action in the fragment) *)
-Definition C18_effect_roundtrip_goal : Prop :=
+(* ... and therefore the same successor state: with the documented per-fluent combination of Planning/Sem.v
+   ([spec_fluent] = [combine] of the values assigned to a ground fluent and of its increases/decreases), the re-read
+   effect list passes the conflict check exactly when the written one does ([spec_effects_ok]) and leads to the same
+   successor ([spec_succ]) from every state - the result depends on the fired assignments only as a multiset. *)
+Theorem C18_effect_roundtrip_same_successor :
+  forall (simp : expr -> expr) (isb : N -> bool) (sc : bool) (I : interp) (P : problem) (s : state)
+         (effs : list effect) (acts : list aeff),
+    Forall (fun e => pddl_eff_ok simp isb e = true) effs ->
+    fired sc I effs = Some acts ->
+    exists acts', fired sc I (norm_effs effs) = Some acts'
+                  /\ spec_effects_ok P s acts' = spec_effects_ok P s acts
+                  /\ forall f args, spec_succ P s acts' f args = spec_succ P s acts f args.
+Proof. exact roundtrip_same_successor. Qed.
+Print Assumptions C18_effect_roundtrip_same_successor.
+
+(* THE SYNTACTIC ROUND TRIP, for every simplifier [simp], every effect list of the fragment [pddl_eff_ok] (effects in
+   simplifier normal form; plain, conditional, universally quantified and both; assign / increase / decrease / Boolean
+   literals) and both settings of rewrite_bool_assignments: the writer prints an "(and ...)" group and the reader's FIFO work
+   list rebuilds exactly [norm_effs effs].
+   Hypotheses: the 11 renaming hypotheses of C18_expr_roundtrip, no fluent is named like an effect keyword
+   (and/when/not/assign/increase/decrease/forall), no fluent / object / type is named "#t". *)
+Theorem C18_effect_roundtrip :
   forall (simp : expr -> expr) (isb : N -> bool) (nm : naming) (E : env),
     (forall f, PddlExpr.e_fl E (nm_fl nm f) = Some f) ->
     (forall f, is_kw (nm_fl nm f) = false) ->
@@ -35,9 +54,14 @@ Definition C18_effect_roundtrip_goal : Prop :=
     (forall t, starts_q (nm_ty nm t) = false) ->
     (forall s q, parse_number s = Some q -> PddlExpr.e_fl E s = None /\ e_obj E s = None) ->
     (forall f, is_eff_kw (nm_fl nm f) = false) ->
+    (forall f, (nm_fl nm f =? "#t") = false) ->
+    (forall o, (nm_obj nm o =? "#t") = false) ->
+    (forall t, (nm_ty nm t =? "#t") = false) ->
     forall (rewrite : bool) (effs : list effect),
       forallb (pddl_eff_ok simp isb) effs = true ->
       exists s, print_effects simp nm rewrite effs = Some s /\ parse_effects simp E isb s = Some (norm_effs effs).
+Proof. exact effects_roundtrip_full. Qed.
+Print Assumptions C18_effect_roundtrip.
 
 (* a concrete instance with every shape: plain, when, forall, forall+when, a dropped effect, increase, a value whose
    normal form differs; the reader's breadth-first order is visible in the result *)
@@ -65,11 +89,16 @@ Example C18_effect_nonvacuous :
   forallb (pddl_eff_ok (fun x => x) ex_isb) ex_effs = true
   /\ print_effects (fun x => x) ex_nm true ex_effs = Some ex_eff_text
   /\ parse_effects (fun x => x) ex_env ex_isb ex_eff_text = Some (norm_effs ex_effs)
+  /\ (exists s, print_effects (fun x => x) ex_nm true ex_effs = Some s
+                /\ parse_effects (fun x => x) ex_env ex_isb s = Some (norm_effs ex_effs))
   /\ norm_effs ex_effs =
      [ xe 0 [] (EBool true) (EBool true) KAssign [] true;
        xe 2 [EObj 3] (EBool true) (EBool true) KAssign [] true;
        xe 1 [EObj 3] (EInt 2) (EFluent 0 []) KInc [] false;
        xe 2 [EVar 1 0] (EBool false) (EBool true) KAssign [(1%N, 0%N)] true;
        xe 1 [EVar 2 0] (EPlus [EInt 1; EFluent 1 [EVar 2 0]]) (EFluent 2 [EVar 2 0]) KAssign [(2%N, 0%N)] false ].
-Proof. repeat split; vm_compute; reflexivity. Qed.
+Proof.
+  split; [vm_compute; reflexivity|]. split; [vm_compute; reflexivity|]. split; [vm_compute; reflexivity|].
+  split; [apply ex_effects_roundtrip; vm_compute; reflexivity|vm_compute; reflexivity].
+Qed.
 Print Assumptions C18_effect_nonvacuous.
